@@ -202,6 +202,12 @@ impl PartitionStorage for FilePartitionStorage {
             }
 
             partition.current_offset = last_segment.current_offset;
+            if last_segment.size_bytes == 0 && last_segment.start_offset > 0 {
+                // An empty segment that does not start at 0 follows closed or deleted segments:
+                // the last assigned offset is the one right before it.
+                partition.current_offset = last_segment.start_offset - 1;
+                partition.should_increment_offset = true;
+            }
         }
 
         partition
